@@ -100,3 +100,45 @@ func HarnessC20LineBreaksWhereAllowed() {
 		verifrt.Assert(p1.String() == p2.String(), "line-break-keeps-the-syntax-tree")
 	}
 }
+
+// multi-line programs: statements separated by line breaks inside every kind of block
+var c20LineTemplates = []string{
+	"x := 1\ny := 2\nz := x + y",
+	"switch x {\ncase 1:\n\ta := 1\n\tb := 2\ncase 2, 3:\n\tc := 3\ndefault:\n\td := 4\n\te := 5\n}",
+	"func f(a) {\n\tb := a\n\treturn b\n}\nf(1)",
+	"if a {\n\tb := 1\n\tc := 2\n} else if d {\n\te := 3\n} else {\n\tg := 4\n}",
+	"for i := 0; i < 3; i++ {\n\tx := i\n\ty := x\n}",
+	"for _, v := range l {\n\tx := v\n\tif x { break }\n}",
+	"m := {\n\ta: 1,\n\tb: 2,\n}",
+	"l := [\n\t1,\n\t2,\n]",
+	"f(\n\ta,\n\tb,\n)",
+	"g := func(p) {\n\tq := p\n\treturn func() {\n\t\treturn q\n\t}\n}",
+	"try(func() {\n\terror(\"x\")\n}, func(e) {\n\treturn 1\n})",
+}
+
+// HarnessC20BlankAndCommentLines: an extra blank line or a comment-only line
+// after any line break of a program leaves the syntax tree unchanged.
+func HarnessC20BlankAndCommentLines() {
+	src := c20LineTemplates[verifrt.Choose(len(c20LineTemplates))]
+	var places []int
+	for i := 0; i < len(src); i++ {
+		if src[i] == '\n' {
+			places = append(places, i)
+		}
+	}
+	at := places[verifrt.Choose(len(places))]
+	filler := []string{"\n", "// c\n", "# c\n", "\t \n", "/* c */\n", "\r\n", "// a\n\n# b\n"}[verifrt.Choose(7)]
+	mod := src[:at+1] + filler + src[at+1:]
+	ctx := context.Background()
+	p1, err1 := parser.Parse(ctx, src)
+	verifrt.Assert(err1 == nil, "original-parses")
+	if err1 != nil {
+		return
+	}
+	p2, err2 := parser.Parse(ctx, mod)
+	verifrt.Reach("compared")
+	verifrt.Assert(err2 == nil, "blank-or-comment-line-accepted")
+	if err2 == nil {
+		verifrt.Assert(p1.String() == p2.String(), "blank-or-comment-line-keeps-the-syntax-tree")
+	}
+}
